@@ -432,6 +432,22 @@ def mat(Aop, ishape, dtype="complex128", real_only=False):
     return M, Mi
 
 
+def mat_real(Aop, ishape, dtype="complex128"):
+    """Columns A(e_j) with e_j held in the REAL dtype of the same precision (float64 / float32); None if the
+    operator rejects real-dtype input (rejecting drops nothing)."""
+    rdt = "float32" if dtype in ("complex64", "float32") else "float64"
+    n = prod(ishape)
+    cols = []
+    for j in range(n):
+        e = np.zeros(n, dtype=rdt)
+        e[j] = 1
+        try:
+            cols.append(np.array(Aop(e.reshape(ishape))).ravel().copy())
+        except Exception:
+            return None
+    return np.stack(cols, axis=1).astype(np.complex128) if cols else np.zeros((0, 0), np.complex128)
+
+
 def _cat_matrix_rows(mats, shapes, axis):
     """Block-column: outputs of shapes `shapes` concatenated along axis (None: raveled)."""
     ncol = mats[0].shape[1]
@@ -527,6 +543,90 @@ def tree_opscale(sp, dt):
         return opscale(sp, ln)
     except Exception:
         return 0.0
+
+
+# ----------------------------------------------------------------------------
+# vector-level reference evaluation (for spaces too large to materialise)
+
+
+def _split_along(x, shapes, axis):
+    """Inverse of concatenation: pieces of x with the given shapes (axis None: flat pieces reshaped)."""
+    if axis is None:
+        flat = np.asarray(x).ravel()
+        out, pos = [], 0
+        for s in shapes:
+            n = prod(s)
+            out.append(flat[pos:pos + n].reshape(s))
+            pos += n
+        return out
+    a = axis % len(shapes[0])
+    cuts = np.cumsum([s[a] for s in shapes])[:-1]
+    return np.split(np.asarray(x), cuts, axis=a)
+
+
+def _cat_along(parts, axis):
+    if axis is None:
+        return np.concatenate([np.asarray(p).ravel() for p in parts])
+    return np.concatenate([np.asarray(p) for p in parts], axis=axis % np.asarray(parts[0]).ndim)
+
+
+def apply_ref(sp, x, adjoint=False):
+    """T(x) (or T^H(x)) evaluated by the *definition* of the combinators on numpy arrays: leaves are applied
+    through the implementation (leaf.H for adjoints), everything above them is concatenate/split/sum algebra."""
+    op = sp["op"]
+    x = np.asarray(x)
+    if op not in COMBINATORS:
+        L = build(sp)
+        return np.asarray((L.H if adjoint else L)(x))
+    if op == "Compose":
+        ops = sp["ops"] if adjoint else sp["ops"][::-1]
+        for o in ops:
+            x = apply_ref(o, x, adjoint)
+        return x
+    if op in ("Add", "Sub"):
+        a, b = apply_ref(sp["a"], x, adjoint), apply_ref(sp["b"], x, adjoint)
+        return a + b if op == "Add" else a - b
+    if op == "Neg":
+        return -apply_ref(sp["a"], x, adjoint)
+    if op == "Scale":
+        c = cplx(sp["s"])
+        return (np.conj(c) if adjoint else c) * apply_ref(sp["a"], x, adjoint)
+    if op == "Conj":
+        return np.conj(apply_ref(sp["a"], np.conj(x), adjoint))
+    if op == "H":
+        return apply_ref(sp["a"], x, not adjoint)
+    if op == "HH":
+        return apply_ref(sp["a"], x, adjoint)
+    shs = [shape_of(o) for o in sp["ops"]]
+    if op == "Diag":
+        iax, oax = (sp["oaxis"], sp["iaxis"]) if adjoint else (sp["iaxis"], sp["oaxis"])
+        ins = _split_along(x, [s[0] if adjoint else s[1] for s in shs], iax)
+        return _cat_along([apply_ref(o, xi, adjoint) for o, xi in zip(sp["ops"], ins)], oax)
+    # Hstack: inputs concatenated, outputs summed; Vstack: outputs concatenated; adjoints swap the roles
+    rowlike = (op == "Hstack") != adjoint
+    if rowlike:
+        ins = _split_along(x, [s[0] if adjoint else s[1] for s in shs], sp["axis"])
+        out = None
+        for o, xi in zip(sp["ops"], ins):
+            y = apply_ref(o, xi, adjoint)
+            out = y if out is None else out + y
+        return out
+    return _cat_along([apply_ref(o, x, adjoint) for o in sp["ops"]], sp["axis"])
+
+
+@st.composite
+def st_big_tree(draw, max_depth=1, max_in=600, max_out=1500, dim_hi=16, min_in=48):
+    """Operator programs on larger spaces (too big for dense materialisation)."""
+    global MAX_IN, MAX_OUT
+    old = (MAX_IN, MAX_OUT)
+    MAX_IN, MAX_OUT = max_in, max_out
+    try:
+        c = draw(st_tree(max_depth=max_depth, max_in=max_in, dim_hi=dim_hi,
+                         min_in=draw(st.sampled_from([0, min_in, min_in, 2 * min_in, 4 * min_in]))))
+    finally:
+        MAX_IN, MAX_OUT = old
+    c["pseed"] = draw(A.seeds)
+    return c
 
 
 # ----------------------------------------------------------------------------
@@ -1191,7 +1291,7 @@ MAX_NDIM = {"Tile": 3, "Wavelet": 3, "Sense": 3}
 
 @st.composite
 def st_tree(draw, max_depth=2, dtypes=("complex128", "complex128", "complex64"), first_round_robin=True,
-            min_dims=1, max_dims=3, max_in=MAX_IN, names=None, dim_hi=6):
+            min_dims=1, max_dims=3, max_in=MAX_IN, names=None, dim_hi=6, min_in=0):
     dt = draw(st.sampled_from(dtypes))
     first = None
     lo, hi = min_dims, max_dims
@@ -1201,6 +1301,13 @@ def st_tree(draw, max_depth=2, dtypes=("complex128", "complex128", "complex64"),
         lo = max(lo, MIN_NDIM.get(first[0], 1))
         hi = min(max(hi, lo), MAX_NDIM.get(first[0], 9))
     s = st_shape(draw, lo, hi, max_in, dim_hi)
+    j = 0
+    while prod(s) < min_in and any(d < dim_hi for d in s) and j < 64:
+        # grow axes in turn until the space is large enough (construction, not rejection)
+        a = j % len(s)
+        if s[a] < dim_hi and prod(s) // s[a] * (s[a] + 1) <= max_in:
+            s[a] += 1
+        j += 1
     depth = draw(st.integers(0, max_depth))
     sp = tree(draw, s, dt, depth, first)
     o, i = shape_of(sp)
